@@ -22,7 +22,7 @@ CASE_TIMEOUT = 60
 WALL = {"quick": 900, "thorough": 7200}
 REQUIRED = {"link_matches_expected": 300, "rej_order": 100, "rej_induced": 100, "rej_resname": 50, "rej_linktype": 10,
             "rej_nonedge": 3, "rej_pattern": 5, "overrides": 5, "dangling_matches": 20, "removals": 3,
-            "replacements": 5, "inter_residue_edges_checked": 200, "library_link_matches": 2000, "libraries": 6, "node_keys_not_like_residue_ids": 500, "cases_with_type_replacing_links": 300}
+            "replacements": 5, "inter_residue_edges_checked": 200, "library_link_matches": 2000, "libraries": 6, "node_keys_not_like_residue_ids": 500, "cases_with_type_replacing_links": 300, "dangling_windows_that_skip_a_residue": 100}
 LINK_OPTS = {"p_remove": 0.12, "p_nonedge": 0.25, "p_pattern": 0.2, "linktypes": True, "p_edge": 0.25,
              "nres": [2, 2, 2, 3, 3, 4], "p_replace": 0.2, "p_version": 0.15, "p_attr": 0.2, "p_partial_resname": 0.2}
 
@@ -30,15 +30,58 @@ LINK_OPTS = {"p_remove": 0.12, "p_nonedge": 0.25, "p_pattern": 0.2, "linktypes":
 def plan(tier, seed):
     n = 4000 if tier == "quick" else 40000
     return [["links", i] for i in range(n)] + [["dangling", i] for i in range(n // 4)] + \
-        [["library", i] for i in range(n // 5)]
+        [["library", i] for i in range(n // 5)] + [["dangling_skip", i] for i in range(n // 40)]
 
 
 def setup():
     PC.setup()
 
 
+def run_dangling_skip(cid, rng, workdir, res):
+    """a dangling pair interaction of a monomer .itp that reaches the residue after the next one (as the 1-3 / 1-4
+    exclusions of martini2 PE): by the statement it is present for every window of three consecutive residues"""
+    import os
+    from ..gen import ff as FF
+    case = paramcase.build(rng, profile="sensible", layouts=["itp_dangling"], nmin=4, nmax=8, p_shared_names=0.0,
+                           p_resnr_offset=0.0)
+    blocks = [b for b in case["spec"]["blocks"] if not b["multi"] and b["syntax"] == "itp"]
+    b = rng.choice(blocks)
+    na = len(b["atoms"])
+    x, y = rng.randrange(na), 2 * na + rng.randrange(na)
+    params = ["1", "%.3f" % rng.uniform(0.2, 0.5), "%.3f" % rng.uniform(0.5, 3.0)]
+    b["inter"].append({"sec": "pairs", "atoms": [x, y], "params": params, "meta": {}})
+    itp_blocks = [bb for bb in case["spec"]["blocks"] if bb["syntax"] == "itp"]
+    case["files"] = [(n_, "\n".join(FF.render_blocks_itp(itp_blocks)) + "\n" if n_.endswith(".itp") else t_) for n_, t_ in case["files"]]
+    # a linear chain of that residue only
+    n = rng.randint(3, 8)
+    start = rng.choice([1, 1, 4])
+    case["graph"] = {"kind": "lin", "nodes": [{"key": i, "resname": b["name"], "resid": start + i} for i in range(n)],
+                     "edges": [(i, i + 1, None) for i in range(n - 1)]}
+    paramcase.write_case(case, workdir)
+    run = PC.run_case_files(case, workdir)
+    res["sig"] = sig_of([case["files"], case["graph"]])
+    res["sample"] = {"block": b["name"], "atoms_per_residue": na, "pair": [x + 1, y + 1], "residues": n}
+    res["nontrivial"] = True
+    if run["status"] != "ok":
+        res["status"] = "rejected"
+        violation(res, "rejects-valid-input:%s" % run.get("exc_type"), "gen_params raised %s" % run["error"], PC.witness(case))
+        return res
+    from ..oracle import itp_min
+    obs = itp_min.read_itp(os.path.join(workdir, "out.itp"))
+    want = {(i * na + x + 1, (i + 2) * na + (y - 2 * na) + 1) for i in range(n - 2)}
+    got = {tuple(sorted(a)) for (a, p_, _c) in obs["inter"].get("pairs", {}) if tuple(p_) == tuple(params)}
+    bump(res, "dangling_windows_that_skip_a_residue", len(want))
+    if {tuple(sorted(w_)) for w_ in want} != got:
+        violation(res, "dangling-interaction-that-skips-a-residue-not-applied", "the monomer's pair %d-%d (own residue and the "
+                  "residue after the next one) is written for %d of the %d windows of three consecutive residues" %
+                  (x + 1, y + 1, len(got), len(want)), PC.witness(case))
+    return res
+
+
 def run_case(cid, rng, workdir):
     res = new_result()
+    if cid[0] == "dangling_skip":
+        return run_dangling_skip(cid, rng, workdir, res)
     if cid[0] == "library":
         # the force fields shipped with polyply, as polyply parses them, against the same reference
         case = PC.build_library_case(rng)
